@@ -104,6 +104,22 @@ def _run_round(desc):
                     if (want & dm).any():
                         spf = sf.from_data_cut(d2, cut, detectormask=dm)
                         _check_frame(sh, "from_data_cut[detectormask]", dict(case, cut=cut), spf, want & dm, d2, cI)
+            if dt == np.uint32 and (x % 5 == 0 or n <= 6):
+                # 32-bit pixel values beyond 2^24 (not representable as float32): the cut is an integer comparison
+                for cut in (2 ** 24 + 2, 2 ** 24 + 4, 2 ** 25 + 8, 2 ** 28, 2 ** 31):
+                    inside = (cut + 1 + (np.arange(n).reshape(shp) % 3)).astype(np.uint64)
+                    outside = (cut - (np.arange(n).reshape(shp) % 2)).astype(np.uint64)
+                    d2 = np.where(mask, inside, outside).astype(np.uint32)
+                    want = d2.astype(np.int64) > cut
+                    row = np.empty(shp, np.uint16); col = np.empty(shp, np.uint16); val = np.empty(shp, np.uint32)
+                    nnz = cI.tosparse_u32(d2, np.ones(shp, bool), row, col, val, cut)
+                    if nnz != int(want.sum()):
+                        sh.violation("tosparse_u32[large values]:nnz", dict(case, cut=cut), {"nnz": int(nnz), "expected": int(want.sum())})
+                        break
+                    spf = sf.sparse_frame(row.ravel()[:nnz].copy(), col.ravel()[:nnz].copy(), shp)
+                    spf.set_pixels("intensity", val.ravel()[:nnz].copy())
+                    if not _check_frame(sh, "tosparse_u32[large values]", dict(case, cut=cut), spf, want, d2, cI):
+                        break
             sh.evaluations += 1
             if mask.sum() >= 2 and mask.any(axis=1).sum() >= 2:
                 sh.nontrivial += 1
